@@ -134,3 +134,24 @@ proof fn lemma_matrix_tree_done(d: AdjacencyMatrix)
     assert(d.no_out(0));
     assert forall|a: int| 1 <= a < d.order implies #[trigger] d.one_parent(a) by {}
 }
+
+mod edge_gen {
+use super::*;
+//@import units/inc/edge_list_core.inc.rs
+//@file src/repr/edge_list/mod.rs
+impl EdgeList {
+    /*@fn trait=Empty name=trivial file=src/gen/empty.rs dropwhere=Self
+    ensures
+        r.wf(),
+        r.ord() == 1,
+    @*/
+
+    /*@fn impl=EdgeList trait=RandomRecursiveTree name=random_recursive_tree
+    ensures
+        order >= 1,
+        r.wf(),
+        r.ord() == order,
+    @closure 1 |u: usize| -> (s: (usize, usize))
+    @*/
+}
+}
